@@ -216,7 +216,9 @@ Definition task_msg (k : pkind) : tmsg := TM (panic_msg k).
 Inductive wout := WYield | WReturn | WPanic (k : pkind) | WSpin | WFuel.
 
 (** the worker loop of [try_grow], from wherever worker [w] is, up to its next yield / return.
-    One unit of fuel per task instruction, per popped task and per idle decision. *)
+    One unit of fuel per task instruction, per popped task and per idle decision (a 1 ms nap of
+    the idle loop is one idle decision). [WSpin] is no longer produced (kept so that the type is
+    unchanged): a worker that naps for ever now runs out of fuel, [WFuel]. *)
 Fixpoint wloop (fuel : nat) (x : pw) (w : nat) (acc : list ev) : pw * list ev * wout :=
   match fuel with
   | O => (x, acc, WFuel)
@@ -314,14 +316,24 @@ Fixpoint wloop (fuel : nat) (x : pw) (w : nat) (acc : list ev) : pw * list ev * 
                     let pf := p_popfail pq + 1 in
                     if pf <? running
                     then (upd_pool x1 p (p_with_popfail pf), acc, WYield)
-                    else (upd_pool x1 p (p_with_popfail 0), acc, WSpin)   (* naps 1 ms and tries again, for ever *)
+                    else
+                      (* the verification hook: instead of blocking for 1 ms, the virtual clock advances by
+                         1 ms (saturating), the pop-fail count is reset, and the loop goes round again *)
+                      wloop f (set_clockp (upd_pool x1 p (p_with_popfail 0)) (sat_add64 (pw_clock x1) 1000000)) w acc
               end
           end
       end
   end.
 
+(** the number of 1 ms naps after which the keep-alive of a worker of the current pool has surely
+    expired (0 when there is no keep-alive) *)
+Definition keep_rounds (x : pw) : nat :=
+  let keep := p_keep (get_pool x (pw_cur x)) in
+  if keep <=? 0 then O else Z.to_nat (keep / 1000000 + 2).
+
 Definition wfuel (x : pw) : nat :=
-  S (S (length (pw_tbody x))) + fold_right Nat.add O (map (fun b => S (S (length b))) (pw_tbody x)) + length (pw_workers x).
+  (S (S (length (pw_tbody x))) + fold_right Nat.add O (map (fun b => S (S (length b))) (pw_tbody x)) + length (pw_workers x)
+  + keep_rounds x)%nat.
 
 (** worker coroutine resume *)
 Definition k_resume (x : pw) (w : nat) : pw * res * list ev :=
@@ -375,7 +387,7 @@ Definition k_resume (x : pw) (w : nat) : pw * res * list ev :=
                         (x3, ROk (Error (panic_msg pk)), ev2 ++ e)
                     | _ => (dead x2, RErr, ev2)
                     end
-                | WSpin | WFuel => (set_spin x2, RBad, ev2)   (* never returns: reported as a divergence by the pass *)
+                | WSpin | WFuel => (set_spin x2, RBad, ev2)   (* never returns (out of fuel): reported as a divergence by the pass *)
                 end
           end
       end
@@ -401,7 +413,18 @@ Inductive pres :=
 | PUnwound
 | PDiverged.
 
-Definition pass_fuel_p (x : pw) : nat := S (S (wfuel x)) * S (S (length (pw_workers x) + length (pw_tbody x))).
+(** rounds of the scheduling loop. Without keep-alive: as before. With keep-alive every round that
+    does some work may be followed by idle rounds: up to [max] idle yields per reset of the pop-fail
+    count, up to [keep_rounds] naps per live worker, and each creation of a worker opens a new
+    keep-alive period; so every working round is given [max * keep_rounds + max + 3] rounds. *)
+Definition pass_fuel_p (x : pw) : nat :=
+  let base := (S (S (wfuel x)) * S (S (length (pw_workers x) + length (pw_tbody x))))%nat in
+  match keep_rounds x with
+  | O => base
+  | S _ as kr =>
+      let m := Z.to_nat (Z.max 1 (p_max (get_pool x (pw_cur x)))) in
+      ((m * kr + m + 3) * S base)%nat
+  end.
 
 
 (** [try_timeout_schedule_task] *)
